@@ -153,6 +153,12 @@ Theorem C11_position_is_line_boundary : forall H A L W tsw c,
   apply_to_file H A L W tsw c since 0 = Some p -> is_line_boundary c p.
 Proof. exact position_is_line_boundary. Qed.
 
+(* the same for apply_to_file(fd, destructive=False): a successful search
+   puts the file back at 0, a search that gives up seeks to 0 / the end *)
+Theorem C11_position_is_line_boundary_nd : forall H A L W tsw c since p,
+  apply_to_file_nd H A L W tsw c since 0 = Some p -> is_line_boundary c p.
+Proof. exact position_is_line_boundary_nd. Qed.
+
 Theorem C11_real_position_is_line_boundary : forall tsw c since p,
   apply_to_file SEEK_HORIZON MAX_SEEK_HORIZON_EXPAND
     MAX_TRY_FIND_WITH_DATE_ATTEMPTS MAX_DATETIME_READ_BYTES tsw c since 0
@@ -300,3 +306,4 @@ Print Assumptions C11_real_legacy_first_line_refuted.
 Print Assumptions C11_real_lookup_exact.
 Print Assumptions C11_position_is_line_boundary.
 Print Assumptions C11_real_position_is_line_boundary.
+Print Assumptions C11_position_is_line_boundary_nd.
